@@ -13,8 +13,9 @@ RULE = ("Batches of Hypothesis-generated designs (C01 generator, biased toward b
         "no-connects, port references, arrays, pairs, generator-named modules) plus the examples / built-in generator corpus; each "
         "batch is run by S real subprocesses (S=8 quick, 24 thorough) with drawn PYTHONHASHSEED values, a drawn permutation of the "
         "batch and drawn amounts of unrelated allocation / elaboration before each design; every other worker discards and "
-        "garbage-collects each design before the next one is built (so object addresses are re-used), the rest keep all alive; every third batch also holds seven hand-written corner designs (one number written four ways in generator "
-        "parameters, one bundle port reference used twice on an instance, reference cycles within an instance, a set-valued generator parameter). For every design all workers must "
+        "garbage-collects each design before the next one is built (so object addresses are re-used), the rest keep all alive; every third batch also holds nine hand-written corner designs (one number written four ways in generator "
+        "parameters, one bundle port reference used twice on an instance, reference cycles within an instance, set- and set-of-sets-valued generator "
+        "parameters, parameter values from inexact prefixed division); the unrelated earlier work includes prefixed-number arithmetic. For every design all workers must "
         "report the same SHA-256 of Package.SerializeToString(deterministic=True) and of the spice, spectre and verilog netlist "
         "text (a netlister exception must be the same class everywhere). Non-trivial = design with a bundle / anonymous-bundle "
         "connection, no-connect, port reference, array or pair; distinct by canonical spec hash.")
@@ -76,7 +77,7 @@ def main(tier):
                 items += [{"key": "p%d" % k, "pdk_item": k} for k in range(4)]  # PDK-compiled designs (sample, Sky130, GF180, ASAP7)
             items += [{"key": "ch%d_%d" % (bi, k), "churn": k} for k in range(4)]
             if bi % 3 == 0:
-                items += [{"key": "sh%d_%d" % (bi, k), "shape": k} for k in range(7)]
+                items += [{"key": "sh%d_%d" % (bi, k), "shape": k} for k in range(9)]
             batches.append((items, chunk))
             for w in range(S):
                 order = list(range(len(items)))
@@ -87,7 +88,7 @@ def main(tier):
                     for pos in order:
                         if rnd.random() < 0.3:
                             noise[str(pos)] = {"alloc": rnd.choice([0, 10, 1000, 100000]), "designs": rnd.choice([0, 1, 3]),
-                                               "keep": rnd.random() < 0.5}
+                                               "keep": rnd.random() < 0.5, "arith": rnd.choice([0, 0, 1, 4])}
                 job = {"items": items, "order": order, "noise": noise, "tier": tier, "drop": bool(w) and w % 2 == 1}
                 jf = os.path.join(work, "job_%d_%d.json" % (bi, w)); of = os.path.join(work, "out_%d_%d.json" % (bi, w))
                 json.dump(job, open(jf, "w"))
@@ -139,7 +140,7 @@ def replay(case):
         elif "pdk_item" in case:
             items = [{"key": "x", "pdk_item": case["pdk_item"]}]
         elif "shape" in case:
-            items = [{"key": "x", "shape": case["shape"]}] + [{"key": "n%d" % k, "shape": k} for k in range(7) if k != case["shape"]]
+            items = [{"key": "x", "shape": case["shape"]}] + [{"key": "n%d" % k, "shape": k} for k in range(9) if k != case["shape"]]
         elif "churn" in case:
             items = [{"key": "x", "churn": case["churn"]}] + [{"key": "n%d" % k, "churn": 10 + k} for k in range(6)]
         else:
